@@ -379,6 +379,11 @@ pub fn run_capi(spec: &RunSpec, use_run: bool) -> Outcome {
                                 let ans = spec.answers.get(&key).cloned().unwrap_or(Answer::Value(Value::Null));
                                 out.traffic.push(format!("fulfil:o{}:{}", id, key));
                                 match ans {
+                                    Answer::Undefined => {
+                                        let h = tsrun_undefined(ctx);
+                                        handles.push(h);
+                                        resp.push(TsRunOrderResponse { id, value: h, error: ptr::null() });
+                                    }
                                     Answer::Value(v) => {
                                         let h = json_to_handle(ctx, &v);
                                         handles.push(h);
